@@ -447,14 +447,70 @@ def discrete_elbo(G, ctx, n_seeded=2000):
         ctx.count("elbo-discrete")
 
 
+def shared_location(G, ctx, n):
+    """a hand-written reparameterised family whose coordinates SHARE one location and have their own scales
+    (normal_reparam.vmap(in_axes=(None, 0))) against a target that couples the coordinates: closed-form ELBO and gradient"""
+    import jax
+    import jax.numpy as jnp
+    import jax.random as jr
+    from genjax.adev import normal_reparam
+    from genjax.inference.vi import elbo_factory
+    normal = G.normal
+
+    @G.gen
+    def target():
+        z = normal.vmap(in_axes=(0, None))(jnp.zeros(3), 1.0) @ "z"
+        y = normal(jnp.sum(z), 0.5) @ "y"
+        return y
+
+    y = 1.2
+
+    def closed(p):        # q = N(mu*1, diag(s^2)); S = sum z ~ N(3 mu, sum s^2)
+        mu, s = p[0], jnp.exp(p[1:])
+        e_prior = jnp.sum(-0.5 * jnp.log(2 * jnp.pi) - 0.5 * (mu ** 2 + s ** 2))
+        e_lik = -0.5 * jnp.log(2 * jnp.pi * 0.25) - ((y - 3 * mu) ** 2 + jnp.sum(s ** 2)) / (2 * 0.25)
+        entropy = jnp.sum(0.5 * jnp.log(2 * jnp.pi * jnp.e * s ** 2))
+        return e_prior + e_lik + entropy
+
+    for axes_name, in_axes in (("loc shared (None, 0)", (None, 0)), ("both mapped (0, 0)", (0, 0))):
+        @G.gen
+        def family(constraint, p, in_axes=in_axes):
+            loc = p[0] if in_axes[0] is None else jnp.full(3, p[0])
+            normal_reparam.vmap(in_axes=in_axes)(loc, jnp.exp(p[1:])) @ "z"
+
+        elbo = elbo_factory(target, family, {"y": jnp.float32(y)})
+        params = jnp.array([0.2, -0.3, 0.1, -0.6], dtype=jnp.float32)
+        keys = jr.split(jr.key(ctx.seed + 7), n)
+        case = {"kind": "elbo-shared-location", "family": axes_name}
+        try:
+            vals = np.asarray(jax.jit(jax.vmap(lambda k: G.seed(elbo.estimate)(k, params)))(keys))
+            grads = np.asarray(jax.jit(jax.vmap(lambda k: G.seed(elbo.grad_estimate)(k, params)))(keys))
+        except Exception as ex:
+            impl.reset_handlers()
+            ctx.property_failure(None, f"reparameterised family ({axes_name}) raised {type(ex).__name__}: {str(ex)[:150]}", case)
+            continue
+        ok, mean, se = z_ok(vals, float(closed(params)))
+        case.update({"mean_elbo": mean, "closed_form": float(closed(params))})
+        if not ok:
+            ctx.property_failure(None, f"reparameterised family ({axes_name}): mean ELBO {mean:.4f} +- {se:.4f} != E_q[log p - log q] = {float(closed(params)):.4f} "
+                                 "(every coordinate needs its own noise)", case)
+        want_g = np.asarray(jax.grad(closed)(params))
+        for j in range(4):
+            ok, mean, se = z_ok(grads[:, j], float(want_g[j]))
+            if not ok:
+                ctx.property_failure(None, f"reparameterised family ({axes_name}): mean grad_estimate[{j}] {mean:.4f} +- {se:.4f} != {float(want_g[j]):.4f}", case)
+        ctx.case(sample=case, nontrivial_key=("shared-loc", axes_name))
+        ctx.count("elbo-shared-location")
+
+
 def shard(ctx, which, n):
     G = impl.load()
-    {"1d": one_dim, "2d": two_dim_fullcov, "sr": structured_reinforce}[which](G, ctx, n)
+    {"1d": one_dim, "2d": two_dim_fullcov, "sr": structured_reinforce, "sl": shared_location}[which](G, ctx, n)
 
 
 def run(ctx, audit):
     n = 20000 if ctx.thorough else 4000
-    common.run_sharded(ctx, "props.c17", "shard", [("1d", n), ("2d", n), ("sr", 4 * n)])
+    common.run_sharded(ctx, "props.c17", "shard", [("1d", n), ("2d", n), ("sr", 4 * n), ("sl", n)])
     optimiser(impl.load(), ctx)
     discrete_elbo(impl.load(), ctx, 8000 if ctx.thorough else 2000)
     return {"rule": RULE}
